@@ -253,7 +253,7 @@ class C08Clauses(Clauses):
 class C04Clauses(Clauses):
     """A conversion that returns a value returns the right value in the asked unit."""
 
-    TOL_EXACT = 1e-9
+    TOL_EXACT = 1e-12       # float rounding only (the property says "exactly"); 1e-9 when bases 2 and 10 mix
     TOL_SHIPPED_PER_DEGREE = 1e-5
 
     def judge(self, q, src_nf, dst_nf, got):
@@ -275,6 +275,8 @@ class C04Clauses(Clauses):
             return None
         exact = I.exact(src_nf) and I.exact(dst_nf)
         tol = self.TOL_EXACT if exact else self.TOL_SHIPPED_PER_DEGREE * (I.degree(src_nf) + I.degree(dst_nf))
+        if exact and binary_prefixed(src_nf, dst_nf):
+            tol = 1e-9
         return err, tol, want, exact
 
     def after_op(self, op, prepared, kind, value, mval, exc, info, rec):
